@@ -25,7 +25,9 @@ def items(tier):
     out = []
     for g in module_grid(tier):
         if g["mod"] == "linsolve" and g.get("lda", True):
-            continue        # LDAWrapper memory between solves is C06/C03 territory; here the plain solver path
+            continue
+        if g["mod"] == "eigensolve_sparse":
+            continue        # four runs with independent "any solution" oracles: the comparisons do not finish (C01 has the items)        # LDAWrapper memory between solves is C06/C03 territory; here the plain solver path
         if tier == "quick" and g["id"] in ("aggregation-PNorm-active", "aggregation-SoftMinMax-active", "inverse-n2-cplx",
                                            "sysofeq-n3-2rhs", "assemble-stiffness-1x1x1"):
             continue        # heavy items: thorough tier only
